@@ -60,7 +60,7 @@ pub fn param_probe(rng: &mut Rng, name: &str) -> String {
     } else {
         param_word(rng).unwrap_or("name").to_string()
     };
-    let tr = *rng.pick(&TRAITS[..11]);
+    let tr = probe_trait(rng, &word);
     param_probe_for(rng, name, &word, tr)
 }
 
@@ -79,7 +79,9 @@ pub fn probe_pair(rng: &mut Rng) -> Option<(String, &'static str)> {
     if u.is_empty() {
         return None;
     }
-    Some((u[rng.usize(u.len())].to_string(), *rng.pick(&TRAITS[..11])))
+    let w = u[rng.usize(u.len())].to_string();
+    let tr = probe_trait(rng, &w);
+    Some((w, tr))
 }
 
 pub fn param_probe_for(rng: &mut Rng, name: &str, word: &str, tr: &str) -> String {
@@ -106,6 +108,30 @@ pub fn param_probe_for(rng: &mut Rng, name: &str, word: &str, tr: &str) -> Strin
 }
 
 static PARAM_WORDS: std::sync::OnceLock<Vec<String>> = std::sync::OnceLock::new();
+static PARAM_SITES: std::sync::OnceLock<Vec<(String, Option<String>)>> = std::sync::OnceLock::new();
+
+pub fn set_param_sites(sites: &[(String, Option<String>)]) {
+    let _ = PARAM_SITES.set(sites.to_vec());
+}
+
+pub fn is_trait_name(s: &str) -> bool {
+    TRAITS.contains(&s)
+}
+
+/// the traits whose handlers' sources mention `word` (empty: only shared code does)
+fn traits_of_word(word: &str) -> Vec<&'static str> {
+    let Some(sites) = PARAM_SITES.get() else { return vec![] };
+    TRAITS.iter().copied().filter(|t| sites.iter().any(|(w, tr)| w == word && tr.as_deref() == Some(*t))).collect()
+}
+
+fn probe_trait(rng: &mut Rng, word: &str) -> &'static str {
+    let ts = traits_of_word(word);
+    if !ts.is_empty() && rng.chance(4, 5) {
+        ts[rng.usize(ts.len())]
+    } else {
+        *rng.pick(&TRAITS[..11])
+    }
+}
 
 pub fn set_param_words(words: &[String]) {
     let _ = PARAM_WORDS.set(words.to_vec());
